@@ -14,7 +14,7 @@ RULE = ('Message.parse(data, header_only, crypto) on: random byte strings; every
         'messages of each exchange kind; a structure-aware grid (every length / next-payload / more / count / critical field at '
         'payload, proposal, transform, attribute, selector, delete, notify level x hostile values); the same mutations applied to '
         'the PLAINTEXT of protected messages, re-padded and re-MACed with the right keys by the reference (plus wrong pad length, '
-        'pad > body, empty body, non-block-multiple ciphertext, IV only; each also with a cleartext payload in front of SK whose length makes the sum a whole number of blocks); (e) scaling: 17 extreme but well-formed shapes (thousands of pairwise different transforms in one proposal, many proposals, many attributes, selectors, SPIs, chained payloads, huge single bodies) at sizes 3..48 KB (thorough: 1.5..64 KB), clear and inside SK; (f) each shard process parses 260 (thorough 3000) DISTINCT well-formed messages with long proposals and then the first ones again: all accepted, same result as the first time. (g) identities of every ID type, vendor IDs and notification data whose text is hostile to pattern matching (long runs, then something that cannot match). Oracle per call: CPU time of the call <= 1.5 s + 60 us per octet (a virtual-time alarm aborts a call after 8 s: work hidden inside one C call executes no line), outcome in {return, InvalidSyntax, '
+        'pad > body, empty body, non-block-multiple ciphertext, IV only; each also with a cleartext payload in front of SK whose length makes the sum a whole number of blocks); (e) scaling: 17 extreme but well-formed shapes (thousands of pairwise different transforms in one proposal, many proposals, many attributes, selectors, SPIs, chained payloads, huge single bodies) at sizes 3..48 KB (thorough: 1.5..64 KB), clear and inside SK; (f) each shard process parses 260 (thorough 3000) DISTINCT well-formed messages with long proposals and then the first ones again: all accepted, same result as the first time. (h) 1500 (thorough 60 000) well-formed generated messages in legal but unusual shapes (payloads shuffled and repeated, mixed-family selector lists, several proposals), clear and sealed; (g) identities of every ID type, vendor IDs and notification data whose text is hostile to pattern matching (long runs, then something that cannot match). Oracle per call: CPU time of the call <= 1.5 s + 60 us per octet (a virtual-time alarm aborts a call after 8 s: work hidden inside one C call executes no line), outcome in {return, InvalidSyntax, '
         'UnsupportedCriticalPayload} and executed repository lines <= 600 + 20*len + 5*S (S = SPI counts declared in DELETE headers); '
         'over budget the call is aborted from the LINE callback. distinct = (corpus class, outcome, raising function, length bucket).')
 ASSUMPTIONS = ['sys.monitoring LINE events of /repo code objects measure work; constants fixed from the densest honest inputs with >=3x head-room',
@@ -209,6 +209,31 @@ def hostile_text(ck, P, rng):
             P.one('hostile-text.sealed', seal(hdr, chain, ptype, keys, rng), crypto=crypto, desc={'inner': chain, 'inner_first': ptype, 'keys': keys})
 
 
+def legal_but_unusual(ck, P, rng):
+    """(h) thousands of WELL-FORMED messages as a third-party implementation might send them: every payload kind with its legal variety (several proposals /
+    transforms, 1-4 selectors of mixed address families, several notify / vendor payloads, payloads in any order, unknown non-critical payloads in between),
+    in clear and inside SK. Nothing but a return or a protocol error may come out, within the budgets."""
+    crypto, keys = make_crypto(rng, True)
+    n = 970000
+    for i in range(1500 if not ck.thorough() else 60000):
+        n += 1
+        if not ck.mine(n):
+            continue
+        m = gen.gen_message(rng, n_payloads=rng.randrange(1, 9), with_unknown=True)
+        pls = [p for p in m['payloads'] if p['type'] != 46]
+        rng.shuffle(pls)
+        if rng.random() < 0.3 and pls:
+            pls = pls + [dict(rng.choice(pls))]          # a payload kind repeated
+        ck.count('unusual.messages')
+        chain = codec.enc_chain(pls)
+        first = pls[0]['type'] if pls else 0
+        hdr = dict(m, exch=rng.choice([34, 35, 36, 37]), major=2, minor=0)
+        if i % 2:
+            P.one('unusual.clear', codec.enc_header(hdr, first, 28 + len(chain)) + chain)
+        else:
+            P.one('unusual.sealed', seal(dict(hdr, exch=hdr['exch'] if hdr['exch'] != 34 else 36), chain, first, keys, rng), crypto=crypto, desc={'inner': chain, 'inner_first': first, 'keys': keys})
+
+
 def long_lived(ck, P, rng):
     """(f) parsing is a function of the datagram alone: hundreds of DISTINCT well-formed messages with long proposals (the kind of content an implementation
     is tempted to cache) are parsed by one process; each must be accepted, and a message parsed again at the end must give what it gave the first time."""
@@ -362,6 +387,7 @@ def run(ck):
                         P.one(f'sealed.patho-after-clear-payload.{pname}', remac_front(f_, b), crypto=crypto, desc={'inner': b'', 'keys': keys})
     large_inputs(ck, P, rng)
     hostile_text(ck, P, ck.rng('hostile-text'))
+    legal_but_unusual(ck, P, ck.rng('unusual', ck.shard[0]))
     long_lived(ck, P, ck.rng('long-lived', ck.shard[0]))
     ck.notes['max_cpu_seconds_of_one_call'] = round(P.max_cpu, 3)
     ck.sets['max_cpu_ms'].add(int(P.max_cpu * 1000))
@@ -380,6 +406,7 @@ def verdict(ck):
     for cls in ('grid.proposal', 'grid.transform', 'grid.selector', 'grid.delete', 'sealed.grid.payload', 'sealed.grid.proposal'):
         ck.floor(f'cases {cls}', c[f'parse.{cls}'], 300)
     ck.floor('distinct long proposals parsed by one process', c['longlived.parsed'], 1500)
+    ck.floor('well-formed messages in legal but unusual shapes', c['unusual.messages'], 1200)
     ck.floor('inputs with text hostile to pattern matching', c['hostile_text.inputs'], 500)
     ck.floor('large extreme shapes', len(ck.sets['large.shapes']), 15)
     ck.floor('large inputs parsed', c['large.inputs'], 40)
